@@ -18,6 +18,73 @@ pub fn alpha(rep: &Rep) -> Alpha {
     }
 }
 
+/// Handshakes carried over from a lost connection complete with the acknowledgements of the resumed one, whatever
+/// Receive Maximum the new CONNACK announces (used by C05 for the results and by C06 for the handshake rules).
+pub fn resumed_connection(rep: &mut Rep, idx: &mut u64) {
+    // acknowledgements on a resumed connection: handshakes carried over from the previous connection complete with
+    // the acknowledgement addressed to them, whatever the new connection's Receive Maximum is
+    rep.note("resumed connection: 1-6 QoS 1/2 publishes unfinished (some QoS 2 ones released) when the connection is lost, session resumed with the new CONNACK announcing Receive Maximum absent / 1 / 2 / 3 (also fewer than the handshakes carried over), new operations of other kinds started, every acknowledgement delivered in PRNG order with success / failure reasons: each future completes exactly once with its own acknowledgement");
+    for unfinished in 1..=6usize {
+        for rmax in [None, Some(1u16), Some(2), Some(3)] {
+            for rep_k in 0..2u64 {
+                let id = format!("resumed:{unfinished}:{:?}:{rep_k}", rmax);
+                *idx += 1;
+                if !rep.take(*idx, &id) {
+                    continue;
+                }
+                let mut rng = crate::sim::Rng::new(rep.seed.wrapping_mul(911).wrapping_add(*idx));
+                let mut w = World::boot(WorldCfg { seed: rep.seed.wrapping_add(rep_k), sei: Some(3600), ..Default::default() });
+                for j in 0..unfinished {
+                    let i = w.start(j % 2, if (j + rep_k as usize) % 2 == 0 { Kind::Pub1 } else { Kind::Pub2 });
+                    w.settle_check();
+                    if w.m[i].kind == Kind::Pub2 && j % 4 == 1 {
+                        w.deliver_ack(i, 1, 0, 0);
+                        w.settle_check();
+                    }
+                }
+                if rep_k == 0 {
+                    w.eof();
+                } else {
+                    w.server_disconnect(0x8b, 1, false);
+                }
+                w.settle_check();
+                let resumed = w.resume_full(ResumeOpts { secs_ago: 1, sei: Some(3600), receive_max: rmax, ..Default::default() });
+                w.settle_check();
+                if resumed && !w.blind {
+                    w.start(0, Kind::Sub);
+                    w.start(1, Kind::Ping);
+                    w.start(0, Kind::Unsub);
+                    w.settle_check();
+                    let mut guard = 0;
+                    loop {
+                        let mut ackable = w.ackable();
+                        let pings = w.pings_outstanding().len();
+                        if (ackable.is_empty() && pings == 0) || w.blind || guard > 60 {
+                            break;
+                        }
+                        if pings > 0 && (ackable.is_empty() || rng.chance(1, 4)) {
+                            w.pingresp();
+                        } else {
+                            let (i, st) = ackable.swap_remove(rng.below(ackable.len()));
+                            w.deliver_ack(i, st, rng.below(9), (rng.next() % 2) as u8);
+                        }
+                        w.settle_check();
+                        guard += 1;
+                    }
+                }
+                super::script::finish(&mut w);
+                rep.add("evaluations", 1);
+                rep.add("resumed_connection_cases", 1);
+                rep.distinct(&("resumed", unfinished, rmax, rep_k));
+                if super::harvest(rep, &mut w, &id) == 0 {
+                    rep.sample(|| format!("{id}: {unfinished} handshakes carried over, all completed with their own acknowledgement"));
+                }
+                super::add_counters(rep, &w);
+            }
+        }
+    }
+}
+
 fn run_mt(rep: &mut Rep, idx: &mut u64) {
     // real threads: every result is checked against the acknowledgement generated for that very request
     let mt: Vec<(usize, usize)> = if rep.quick() { vec![(4, 6000), (8, 4000), (2, 6000), (6, 4000)] } else { vec![(4, 40_000), (8, 40_000), (8, 30_000), (6, 50_000), (2, 60_000), (3, 50_000), (5, 40_000), (7, 30_000)] };
@@ -199,68 +266,7 @@ pub fn run(rep: &mut Rep) {
             }
         }
     }
-    // acknowledgements on a resumed connection: handshakes carried over from the previous connection complete with
-    // the acknowledgement addressed to them, whatever the new connection's Receive Maximum is
-    rep.note("resumed connection: 1-6 QoS 1/2 publishes unfinished (some QoS 2 ones released) when the connection is lost, session resumed with the new CONNACK announcing Receive Maximum absent / 1 / 2 / 3 (also fewer than the handshakes carried over), new operations of other kinds started, every acknowledgement delivered in PRNG order with success / failure reasons: each future completes exactly once with its own acknowledgement");
-    for unfinished in 1..=6usize {
-        for rmax in [None, Some(1u16), Some(2), Some(3)] {
-            for rep_k in 0..2u64 {
-                let id = format!("resumed:{unfinished}:{:?}:{rep_k}", rmax);
-                idx += 1;
-                if !rep.take(idx, &id) {
-                    continue;
-                }
-                let mut rng = crate::sim::Rng::new(rep.seed.wrapping_mul(911).wrapping_add(idx));
-                let mut w = World::boot(WorldCfg { seed: rep.seed.wrapping_add(rep_k), sei: Some(3600), ..Default::default() });
-                for j in 0..unfinished {
-                    let i = w.start(j % 2, if (j + rep_k as usize) % 2 == 0 { Kind::Pub1 } else { Kind::Pub2 });
-                    w.settle_check();
-                    if w.m[i].kind == Kind::Pub2 && j % 4 == 1 {
-                        w.deliver_ack(i, 1, 0, 0);
-                        w.settle_check();
-                    }
-                }
-                if rep_k == 0 {
-                    w.eof();
-                } else {
-                    w.server_disconnect(0x8b, 1, false);
-                }
-                w.settle_check();
-                let resumed = w.resume_full(ResumeOpts { secs_ago: 1, sei: Some(3600), receive_max: rmax, ..Default::default() });
-                w.settle_check();
-                if resumed && !w.blind {
-                    w.start(0, Kind::Sub);
-                    w.start(1, Kind::Ping);
-                    w.start(0, Kind::Unsub);
-                    w.settle_check();
-                    let mut guard = 0;
-                    loop {
-                        let mut ackable = w.ackable();
-                        let pings = w.pings_outstanding().len();
-                        if (ackable.is_empty() && pings == 0) || w.blind || guard > 60 {
-                            break;
-                        }
-                        if pings > 0 && (ackable.is_empty() || rng.chance(1, 4)) {
-                            w.pingresp();
-                        } else {
-                            let (i, st) = ackable.swap_remove(rng.below(ackable.len()));
-                            w.deliver_ack(i, st, rng.below(9), (rng.next() % 2) as u8);
-                        }
-                        w.settle_check();
-                        guard += 1;
-                    }
-                }
-                super::script::finish(&mut w);
-                rep.add("evaluations", 1);
-                rep.add("resumed_connection_cases", 1);
-                rep.distinct(&("resumed", unfinished, rmax, rep_k));
-                if super::harvest(rep, &mut w, &id) == 0 {
-                    rep.sample(|| format!("{id}: {unfinished} handshakes carried over, all completed with their own acknowledgement"));
-                }
-                super::add_counters(rep, &w);
-            }
-        }
-    }
+    resumed_connection(rep, &mut idx);
     // wide: N operations of mixed kinds outstanding at once, acknowledged in PRNG order, every result checked
     let widths: Vec<usize> = if rep.quick() { vec![17, 33, 65, 129, 257] } else { vec![15, 16, 17, 31, 32, 33, 63, 64, 65, 127, 128, 129, 255, 256, 257, 511, 513, 1023, 1025, 3000] };
     rep.note(&format!("wide: {:?} operations of mixed kinds outstanding together (from two handle clones), acknowledged in PRNG order with alternating success / failure reasons", widths));
